@@ -3,8 +3,12 @@
 
   Side conditions, and which internal-error branch each one closes:
     ValidDoc.opsOk / fragsOk (selOk)   `KeyError` of `fragments[name]`, `UnknownType` of `get_type_from_literal`
-                                        (type conditions), `CoercionError` of `_skip_selection`  — collect_fields;
+                                        (type conditions)  — collect_fields;
                                         `UnboundLocalError` of `field_definition` (no `__schema`/`__type` off the root)
+    (no premise)                       `CoercionError` of `_skip_selection` (a condition that is not a Boolean at run time:
+                                        list literal, nullable variable with a default bound to null) is no longer an
+                                        exception: `ResolutionContext.collect_fields` converts it (4e87d3d) — `NoIntC` at
+                                        collect level, `noInt_catchDirective` at `execute_fields` level
     KeyConsistent                      all nodes of one response key name the SAME field, so the sub-selections merged
                                         for a runtime type are all well-typed for it (else: unknown fragments/types
                                         reached through an ill-typed sub-selection)
@@ -13,7 +17,8 @@
     SchemaOk.kinds                     `TypeError("Invalid field type")` (unknown / input type at an output position)
     WorldTyped + Conforms              `RuntimeError` (not iterable; leaf not serialisable; unknown enum value;
                                         abstract type resolved to a non-object / non-possible type), `UnknownType` of
-                                        `resolve_type`, and the "unexpected exception" outcome of a resolver
+                                        `resolve_type`, and the "unexpected exception" outcome of a resolver; iterables and
+                                        `resolve_type`s that raise `ResolverError` CONFORM (field errors since 7b8e151)
 -/
 import PyGqlModel.Exec
 import PyGqlModel.Spec.ValidDoc
